@@ -1244,6 +1244,52 @@ def h_samples(ctx, group):
     return [i, got]
 
 
+# ----------------------------------------------------------------------------- definitions one after the other
+
+SEQ_ACTIONS = [  # (then-words, the 8-octet extended communities of RFC 8955 section 7 they stand for)
+    ('discard ;', [bytes.fromhex('8006000000000000')]),
+    ('rate-limit 9600 ;', [bytes.fromhex('80060000') + struct.pack('!f', 9600.0)]),
+    ('mark 10 ;', [bytes.fromhex('800900000000000a')]),
+    ('action sample ;', [bytes.fromhex('8007000000000002')]),
+    ('redirect 65000:12 ;', [bytes.fromhex('8008fde80000000c')]),
+    ('extended-community [ target:65000:1 ] ;', [bytes.fromhex('0002fde800000001')]),
+]
+
+
+def h_flow_sequence(ctx):
+    """Three flow definitions given one after the other to ONE configuration object in one process (what a file with
+    three routes, or three API commands, do): `then { X }`, `then { X Y }`, `then { X }`.  Every one of them is encoded
+    with the actions written in IT: the extended communities on the wire are exactly those of its own then-block -
+    what was accepted before or after it plays no part."""
+    i = ctx.choice('first', len(SEQ_ACTIONS))
+    j = ctx.choice('second', len(SEQ_ACTIONS))
+    ctx.assume(i != j)
+    (x, wx), (y, wy) = SEQ_ACTIONS[i], SEQ_ACTIONS[j]
+    shape = (False, False, False)
+    neg = mk_session(FLOW['fam'], shape)
+    defs = [('source 10.0.0.1/32 ;', x, wx), ('source 10.0.0.2/32 ;', x + ' ' + y, wx + wy), ('source 10.0.0.3/32 ;', x, wx)]
+    routes = []
+    for match, then, want in defs:
+        out = parse_text(ctx, 'flow', flow_words(match.split(' '), then.split(' ')))
+        if out[0] != 'accept' or len(out[1]) != 1:
+            ctx.cover('refuse')
+            ctx.check('rfc-value-accepted', False, sig='C18:flow-sequence:refused:%s' % then.replace(' ', '_'), info={'then': then, 'outcome': str(out)[:200]})
+            return [i, j, 'refuse']
+        routes.append(out[1][0])
+    ctx.cover('accept')
+    got = []
+    for k, (route, (match, then, want)) in enumerate(zip(routes, defs)):
+        msgs = list(UpdateCollection([RoutedNLRI(route.nlri, route.nexthop)], [], route.attributes).messages(neg))
+        w = W(ctx, msgs[0], shape, (1, 133))
+        x8 = bytes(w.need(O.EXT_COMMUNITY))
+        sent = sorted(x8[o:o + 8] for o in range(0, len(x8), 8))
+        got.append([c.hex() for c in sent])
+        ctx.check('wire-carries-the-actions-as-written', sent == sorted(want),
+                  sig='C18:flow-sequence:%s:definition-%d-carries-other-actions' % (x.split(' ')[0], k + 1),
+                  info={'definitions': [d[1] for d in defs], 'definition': k + 1, 'sent': got[-1], 'written': [c.hex() for c in sorted(want)]})
+    return [i, j, got]
+
+
 # ----------------------------------------------------------------------------- units
 
 def units(tier):
@@ -1257,4 +1303,5 @@ def units(tier):
                        max_paths=40000, weight=len(shapes) * 3 ** len(case_.nums)))
     for group in SAMPLES:
         us.append(Unit(group, lambda ctx, g=group: h_samples(ctx, g), must_cover=('accept', 'refuse'), max_seconds=400, weight=30))
+    us.append(Unit('lexical/flow/sequence', h_flow_sequence, must_cover=('accept',), max_seconds=400, weight=30))
     return us
